@@ -13,9 +13,9 @@ def isProtEv : Event → Bool
   | _ => false
 
 /-- ids of the `new` requests still waiting in a mailbox -/
-def newIds (mb : List Msg) : List Id :=
+def newIds (mb : List Msg) : List (Peer × Id) :=
   mb.filterMap fun
-    | .processRequests _ (.new id _) => some id
+    | .processRequests p (.new id _) => some (p, id)
     | _ => none
 
 /-- the (peer, id) of a `newRequest` whose manager step is parked -/
@@ -37,7 +37,7 @@ structure Pi where
   prot : List (Peer × Id)
   plog : List Event
   seen : List Id
-  news : List Id
+  news : List (Peer × Id)
   pnew : Option (Peer × Id)
   pcore : Option (MgrCont × Peer × Id × List TxOp)
 
